@@ -1677,7 +1677,7 @@ func handleBreakingFieldSameDefault(
 			withBackupLocation(field.DefaultLocation(), field.Location()),
 			withBackupLocation(previousField.DefaultLocation(), previousField.Location()),
 			field.File().Path(),
-			`% changed default value from %v to %v.`,
+			`%s changed default value from %v to %v.`,
 			fieldDescription(field),
 			previousDefault.printable,
 			currentDefault.printable,
@@ -1736,7 +1736,7 @@ func handleBreakingFieldSameOneof(
 				field.Location(),
 				previousField.Location(),
 				field.File().Path(),
-				`%sq moved from oneof %q to oneof %q.`,
+				`%s moved from oneof %q to oneof %q.`,
 				fieldDescription(field),
 				previousOneof.Name(),
 				oneof.Name(),
